@@ -71,6 +71,7 @@ pub fn cmd_drive(args: &[String]) {
         "Token" => crate::drive_token::drive(seed, runs, steps, &args[4]),
         "GasService" => crate::drive_gas::drive(seed, runs, steps, &args[4]),
         "ITS" => crate::drive_its::drive(seed, runs, steps, &args[4]),
+        "Abi" => crate::drive_abi::drive(seed, runs, steps, &args[4]),
         m => panic!("no driver for module {m}"),
     }
 }
